@@ -115,6 +115,7 @@ public:
   unsigned tempCounter = 0;
   unsigned loopCounter = 0;
   std::map<const VarDecl*, std::string> localNames;
+  std::set<const ParmVarDecl*> byValParams;
   std::set<std::string> localUsed;
 
   Lowerer(ASTContext& C) : Ctx(C), PP(C.getLangOpts()), SM(C.getSourceManager()) {
